@@ -249,3 +249,103 @@ func H_C07_BlockStore() {
 		zzverif.Assert(label, false)
 	}
 }
+
+// C07 (the block store after a power loss): the index and the data file of a store of three blocks cut to an
+// arbitrary prefix each (a case split over the cut points that matter: none, one byte short, inside / at the start of
+// the last record or block, inside the second). The store must open, list exactly the complete index records, return
+// every listed block byte-identical or refuse it - never other bytes - and stay like that when the next block is
+// appended and the store restarted.
+func H_C07_BlockStoreTruncated() {
+	fs := &h16_fs{files: map[string][]byte{}, handles: map[*os.File]*h16_handle{}}
+	dir := "/blocks/"
+	if zzverif.Symbolic() {
+		fs.install()
+	} else {
+		tmp, _ := os.MkdirTemp("", "zzverif_c07t_")
+		defer os.RemoveAll(tmp)
+		dir = tmp + "/"
+	}
+	mk := func(tag byte, tail []byte) *btc.Block {
+		h1, h2, h3 := sha256.Sum256([]byte{tag, 0}), sha256.Sum256([]byte{tag, 1}), sha256.Sum256([]byte{tag, 2})
+		raw := append(append(append(append([]byte{}, h1[:]...), h2[:]...), h3[:16]...), tail...)
+		bl, _ := btc.NewBlock(raw)
+		bl.TxCount = int(tag)
+		return bl
+	}
+	A, B, C, D := mk(0xA1, []byte{1, 2}), mk(0xB2, []byte{3}), mk(0xC3, zzverif.Bytes("C.tail", 2)), mk(0xD4, []byte{4})
+	blocks := []*btc.Block{A, B, C}
+	height := map[*btc.Block]uint32{A: 100, B: 101, C: 102, D: 103}
+	var idx, dat []byte
+	end := map[*btc.Block]int{} // where the block's data ends in the data file
+	for _, bl := range blocks {
+		var rec [136]byte
+		rec[0] = BLOCK_LENGTH | BLOCK_INDEX
+		binary.LittleEndian.PutUint32(rec[32:36], uint32(len(bl.Raw)))
+		binary.LittleEndian.PutUint32(rec[36:40], height[bl])
+		binary.LittleEndian.PutUint64(rec[40:48], uint64(len(dat)))
+		binary.LittleEndian.PutUint32(rec[48:52], uint32(len(bl.Raw)))
+		binary.LittleEndian.PutUint32(rec[52:56], uint32(bl.TxCount))
+		copy(rec[56:136], bl.Raw[:80])
+		idx = append(idx, rec[:]...)
+		dat = append(dat, bl.Raw...)
+		end[bl] = len(dat)
+	}
+	idxCut := []int{408, 407, 300, 273, 272, 136, 0}[zzverif.Enum("index-cut", 7)]
+	datCut := []int{len(dat), len(dat) - 1, end[B] + 1, end[B], end[A] + 5}[zzverif.Enum("data-cut", 5)]
+	zzverif.Bound("truncation", "three stored blocks of 81..82 bytes; index cut to 408 / 407 / 300 / 273 / 272 / 136 / 0 bytes, data file cut to its full length, one byte less, one byte into / at the start of the third block, five bytes into the second; then one block appended and a restart")
+	if zzverif.Symbolic() {
+		fs.files[dir+"blockchain.new"] = idx[:idxCut]
+		fs.files[dir+"blockchain.dat"] = dat[:datCut]
+	} else {
+		os.WriteFile(dir+"blockchain.new", idx[:idxCut], 0660)
+		os.WriteFile(dir+"blockchain.dat", dat[:datCut], 0660)
+	}
+	type listed struct{ height, blen, txs uint32 }
+	open := func() (*BlockDB, map[[32]byte]listed) {
+		db := NewBlockDBExt(dir, &BlockDBOpts{MaxCachedBlocks: 10})
+		got := map[[32]byte]listed{}
+		db.LoadBlockIndex(nil, func(ch *Chain, hash, hdr []byte, height, blen, txs uint32) {
+			var h [32]byte
+			copy(h[:], hash)
+			got[h] = listed{height, blen, txs}
+		})
+		return db, got
+	}
+	db, list := open()
+	zzverif.Assert("C07.trunc.lists-complete-records", len(list) == idxCut/136)
+	// a block whose data lies beyond the end of the data file: the harness marks the region of the known finding
+	lost := false
+	for i, bl := range blocks {
+		if i < idxCut/136 && end[bl] > datCut {
+			lost = true
+		}
+	}
+	look := func(stage string) {
+		for i, bl := range blocks {
+			_, in := list[bl.Hash.Hash]
+			zzverif.Assert("C07.trunc.lists-prefix", in == (i < idxCut/136))
+			if !in {
+				continue
+			}
+			data, _, er := db.BlockGet(bl.Hash)
+			if end[bl] <= datCut {
+				zzverif.Assert("C07.trunc."+stage+".intact", er == nil && bytes.Equal(data, bl.Raw))
+			} else {
+				// known finding: once the next block has been appended past the hole, the gap is returned as the block
+				zzverif.Known("C07-index-beyond-data-file", lost && stage == "after-append")
+				zzverif.Assert("C07.trunc."+stage+".no-wrong-data", er != nil || bytes.Equal(data, bl.Raw))
+				zzverif.Known("C07-index-beyond-data-file", false)
+			}
+		}
+	}
+	look("open")
+	db.BlockAdd(height[D], D)
+	db.Close()
+	fs.handles = map[*os.File]*h16_handle{}
+	db, list = open()
+	l, in := list[D.Hash.Hash]
+	data, _, er := db.BlockGet(D.Hash)
+	zzverif.Assert("C07.trunc.append-intact", in && l.height == 103 && er == nil && bytes.Equal(data, D.Raw))
+	look("after-append")
+	zzverif.Reach("restarted")
+}
